@@ -231,29 +231,31 @@ class RealEngine:
         return [Sym('q'), answers, ending, b1], (before, after)
 
 
+def run_op(eng, op):
+    k = op[0]
+    if k == 'load':
+        return eng.load(op[2], overwrite=(op[1] == 'overwrite'))
+    if k == 'loadfail':
+        return eng.load(op[1], fail=True)
+    if k == 'regpy':
+        _, name, arity, rows, raise_at, style, yv = op
+        return eng.regpy(name, arity, rows, raise_at, style, yv)
+    if k == 'assert':
+        return eng.assert_fact(op[1], op[3], append=(op[2] == 'z'))
+    if k == 'clear':
+        return eng.clear()
+    if k == 'query':
+        how = op[4] if len(op) > 4 else 'close'
+        return eng.query(op[1], op[3], op[2], how)
+    if k == 'eb':
+        return eng.evaluate_bounded(op[1], op[2], op[4], op[3])[0]
+    raise ValueError(op)
+
+
 def run_scenario(ops):
     """ops: list of tuples, see checks. Returns list of results (sexp values)."""
     eng = RealEngine()
-    out = []
-    for op in ops:
-        k = op[0]
-        if k == 'load':
-            out.append(eng.load(op[2], overwrite=(op[1] == 'overwrite')))
-        elif k == 'loadfail':
-            out.append(eng.load(op[1], fail=True))
-        elif k == 'regpy':
-            _, name, arity, rows, raise_at, style, yv = op
-            out.append(eng.regpy(name, arity, rows, raise_at, style, yv))
-        elif k == 'assert':
-            out.append(eng.assert_fact(op[1], op[3], append=(op[2] == 'z')))
-        elif k == 'clear':
-            out.append(eng.clear())
-        elif k == 'query':
-            how = op[4] if len(op) > 4 else 'close'
-            out.append(eng.query(op[1], op[3], op[2], how))
-        else:
-            raise ValueError(op)
-    return out
+    return [run_op(eng, op) for op in ops]
 
 
 def scenario_model(ops, mode, fuel=4000):
